@@ -2,6 +2,7 @@
 //! Code: mahf::components::swarm::pso::{ParticleVelocitiesUpdate::{from_params,init,execute},ParticleVelocitiesInit::from_params,PersonalBestParticlesUpdate::execute,GlobalBestParticleUpdate::{init,execute},InertiaWeight,BestParticles,BestParticle,ParticleVelocities}
 //! Code: mahf::components::mapping::common::Linear::{map,execute}, mahf::components::mapping::mapping, mahf::state::common::Progress
 //! Out: swarms larger than 2, dimension above 1; magnitudes above 2^20 in the velocity step; the full three-product velocity formula is thorough-tier (three symbolic 64-bit multipliers: 12 min of SAT in the probe); that the shipped template passes (start, end) in that order is template wiring (C16)
+//! Reclimit: mahf::state::(registry::)?StateRegistry::<.*>::find(_mut)?::<.*>=2
 //! Assume: inductive one-step from an arbitrary swarm state of the stated shape; SymRng draws u in [0,1) as produced by rand's f64 sampler
 use mahf::components::mapping::{Linear, Mapping};
 use mahf::components::swarm::pso::{
